@@ -1,0 +1,98 @@
+//go:build verif
+
+// C31: contracts for the snap download (govc, /verif). Only compiled with -tags verif.
+
+package store
+
+// ---- abstract state ---------------------------------------------------------------------------------
+//
+// fileSum(f):   hex SHA3-384 of the bytes currently in the file behind the handle f
+// hashedSum(f): hex SHA3-384 of the bytes the last download into f fed to its running hash (the seed
+//               re-read from the file plus the body of the last response)
+// dlOK/dlSum/dlFile/dlResume: the last call of downloadImpl (whether it returned nil, the digest, the file
+//               handle and the resume offset it was given)
+// cacheHit():   the verdict of the last download-cache lookup
+
+//@ ghost fileSum(iface) str
+//@ ghost hashedSum(iface) str
+//@ ghost dlOK() bool
+//@ ghost dlSum() str
+//@ ghost dlFile() iface
+//@ ghost dlResume() int
+//@ ghost cacheHit() bool
+
+// the package variable through which Download reaches downloadImpl is only replaced in tests
+//@ const [C31] download: downloadImpl
+
+// ASSUMED, NOT VERIFIED: govc cannot analyse the body (after `defer` inside a loop became supported:
+// `unsupported (range over string by rune at store/store_download.go:591)`). The clauses are what the
+// REPAIRED body (fix 39a19d3) does by inspection: nil is only returned after the comparison
+// `sha3_384 != actualSha3` of the running hash came out equal (or was skipped for an empty digest); the
+// running hash h is fed, since its last seed/reset, by the same io.MultiWriter as w; when an answer other
+// than 206 makes an attempt start over, w is rewound AND truncated to 0 before h is reset, so nothing of an
+// earlier attempt stays behind the new body: the file holds exactly what was hashed. (Before the repair
+// the truncation was missing and the last clause was false: findings/C31_stale_tail_kept_test.go.)
+// The first clause only records the call for the obligations of Download.
+//@ func downloadImpl
+//@   trusted
+//@   assigns fileSum hashedSum dlOK dlSum dlFile dlResume
+//@   ensures dlOK() == (result == nil) && dlSum() == sha3_384 && dlFile() == w && dlResume() == resume
+//@   ensures result == nil && sha3_384 != "" ==> hashedSum(w) == sha3_384
+//@   ensures result == nil ==> fileSum(w) == hashedSum(w)
+
+// interface methods (nullCache / CacheManager): write no program state
+//@ func (store.downloadCache).Get
+//@   trusted
+//@   assigns cacheHit
+//@   ensures cacheHit() == result
+
+//@ func (store.downloadCache).Put
+//@   trusted
+//@   assigns nothing
+
+// ---- Download: the partial file is renamed onto the target only after a successful verification ------
+//
+// Paths to the rename: a download was needed (no io.Copy in Download itself) or the partial file was
+// complete and is compared locally (io.Copy into a fresh hash); either may be followed by one retry from
+// scratch after a digest mismatch (Truncate). "A download call of Download itself was the last thing that
+// verified the file" is therefore: !called("io.Copy") || called("(*os.File).Truncate").
+
+//@ func (*Store).Download
+//@   props C31
+//@   guard call os.Rename: [onto-target] arg1 == targetPath
+//@   guard call os.Rename: [at-most-once] !called("os.Rename")
+//@   guard call os.Rename: [download-succeeded] !called("io.Copy") || called("(*os.File).Truncate") ==> dlOK()
+//@   guard call os.Rename: [declared-digest-this-file] !called("io.Copy") || called("(*os.File).Truncate") ==> dlSum() == downloadInfo.Sha3_384 && dlFile() == iface(w)
+//@   guard call os.Rename: [stream-digest-verified] (!called("io.Copy") || called("(*os.File).Truncate")) && downloadInfo.Sha3_384 != "" ==> hashedSum(iface(w)) == downloadInfo.Sha3_384
+//@   guard call os.Rename: [resumed-at-file-end] !called("io.Copy") && !called("(*os.File).Truncate") ==> dlResume() == resume
+//@   guard call os.Rename: [or-from-scratch] called("(*os.File).Truncate") ==> dlResume() == 0 && calledAfter("(*os.File).Seek", "(*os.File).Truncate")
+//@   guard call os.Rename: [file-digest-verified] (!called("io.Copy") || called("(*os.File).Truncate")) && downloadInfo.Sha3_384 != "" ==> fileSum(iface(w)) == downloadInfo.Sha3_384
+//@   guard call (*os.File).Truncate: [only-after-mismatch-once] arg0 == w && arg1 == 0 && !called("(*os.File).Truncate") && (!called("io.Copy") ==> !dlOK())
+//@   guard call (*os.File).Seek: [end-first-then-start] arg0 == w && arg1 == 0 && (called("(crypto.Hash).New") || called("(*os.File).Truncate") ==> arg2 == 0)
+//@   guard call io.Copy: [complete-partial-reread-from-start] calledAfter("(*os.File).Seek", "(crypto.Hash).New") && !called("io.Copy") && !called("(*os.File).Truncate") && arg1v == w
+//@   ensures [no-success-without-file] result == nil ==> called("os.Rename") || cacheHit() || called("(*Store).downloadAndApplyDelta")
+
+// ---- the delta path: the rebuilt file is renamed onto the target only after its digest was compared ---
+
+//@ ghost adTarget() str
+//@ ghost adSum() str
+
+// calls through the package variable applyDelta are recorded (target path and digest handed over)
+//@ func var:applyDelta
+//@   trusted
+//@   assigns adTarget adSum
+//@   ensures adTarget() == arg4 && adSum() == arg5
+
+//@ const [C31] applyDelta: func(s *Store, name string, deltaPath string, deltaInfo *snap.DeltaInfo, targetPath string, targetSha3_384 string) error { return s.applyDeltaImpl(name, deltaPath, deltaInfo, targetPath, targetSha3_384) }
+
+//@ func (*Store).downloadAndApplyDelta
+//@   props C31
+//@   ensures [declared-digest-and-target-handed-over] result == nil ==> adTarget() == targetPath && adSum() == downloadInfo.Sha3_384
+
+//@ func (*Store).applyDeltaImpl
+//@   props C31
+//@   guard call osutil.FileDigest: [of-the-rebuilt-file] arg0 == partialTargetPath && partialTargetPath == targetPath + ".partial"
+//@   guard call os.Rename: [digest-compared] called("osutil.FileDigest") && (targetSha3_384 != "" ==> sha3_384 == targetSha3_384)
+//@   guard call os.Rename: [rebuilt-file-onto-target] arg0 == partialTargetPath && arg1 == targetPath
+//@   guard call osutil.CopyFile: [fallback-after-rename-failed] called("os.Rename") && arg0 == partialTargetPath && arg1 == targetPath
+//@   ensures [success-means-placed] result == nil ==> called("os.Rename")
